@@ -45,14 +45,19 @@ type lgFacts struct {
 	gt    []*Poly
 	ne    []*Poly
 	nonil map[string]bool
+	isnil map[string]bool
 }
 
 func lgCollect(conds []Cond) *lgFacts {
-	f := &lgFacts{nonil: map[string]bool{}}
+	f := &lgFacts{nonil: map[string]bool{}, isnil: map[string]bool{}}
 	for _, cd := range conds {
 		r := cd.Rel()
 		if r.B != nil && r.B.IsNil() && r.Op == "!=" {
 			f.nonil[stripConv(r.A).Key()] = true
+			continue
+		}
+		if r.B != nil && r.B.IsNil() && r.Op == "==" {
+			f.isnil[stripConv(stripIface(r.A)).Key()] = true
 			continue
 		}
 		if pl, kind, ok := r.IntNorm(); ok {
@@ -74,6 +79,15 @@ func lgLenFacts(q *Poly) []*Poly {
 	for k, a := range q.Atoms {
 		if k != "" && a != nil && a.Op == "builtin" && (a.Sym == "len" || a.Sym == "cap") {
 			out = append(out, polyAtom(a).Add(polyConst(1), 1)) // len(x) + 1 > 0
+			if len(a.Args) == 1 {
+				// cap(x) - len(x) + 1 > 0
+				other := &Term{Op: "builtin", Sym: map[string]string{"len": "cap", "cap": "len"}[a.Sym], Args: a.Args, Typ: a.Typ}
+				if a.Sym == "cap" {
+					out = append(out, polyAtom(a).Add(polyAtom(other), -1).Add(polyConst(1), 1))
+				} else {
+					out = append(out, polyAtom(other).Add(polyAtom(a), -1).Add(polyConst(1), 1))
+				}
+			}
 		}
 	}
 	return out
@@ -191,8 +205,8 @@ func lgNeeds(kind string, t *Term, instr ssa.Instruction) []lgNeed {
 			}
 		} else if !lgIsNone(hi) {
 			if _, isSlice := x.Typ.Underlying().(*types.Slice); isSlice {
-				// a slice may be extended up to its capacity; the guard a function writes is about len, and len <= cap
-				out = append(out, lgNeed{gt0: ToPoly(lgLen(x)).Add(ToPoly(hi), -1).Add(polyConst(1), 1), what: fmt.Sprintf("%s <= len(%s)", hi, x)})
+				// a slice may be extended up to its capacity (a test against len implies it: len <= cap, see lgLenFacts)
+				out = append(out, lgNeed{gt0: ToPoly(lgCap(x)).Add(ToPoly(hi), -1).Add(polyConst(1), 1), what: fmt.Sprintf("%s <= cap(%s)", hi, x)})
 			}
 		}
 		if !lgIsNone(lo) {
@@ -266,12 +280,27 @@ func lgOps(p *Path) []lgOp {
 			if b := lgBase(e.Addr); b != nil {
 				ops = append(ops, lgOp{"deref", b, e.Instr, e.NCond})
 			}
+		case "mapupdate":
+			if e.Addr != nil && (e.Addr.Op == "load" || e.Addr.Op == "param") {
+				ops = append(ops, lgOp{"deref", e.Addr, e.Instr, e.NCond})
+			}
 		case "call":
-			if e.Fn == nil && e.SSAFn == nil && e.Callee != nil && !e.Deferred {
+			// documented contract of sync/atomic.Value: Store, Swap and CompareAndSwap panic for a nil new value, before
+			// they change anything
+			if !e.Deferred && (e.Name == "sync/atomic.(*Value).Store" || e.Name == "sync/atomic.(*Value).Swap") && len(e.Args) == 2 && e.Args[1] != nil {
+				ops = append(ops, lgOp{"deref", stripConv(stripIface(e.Args[1])), e.Instr, e.NCond})
+			}
+			if !e.Deferred && e.Name == "sync/atomic.(*Value).CompareAndSwap" && len(e.Args) == 3 && e.Args[2] != nil {
+				ops = append(ops, lgOp{"deref", stripConv(stripIface(e.Args[2])), e.Instr, e.NCond})
+			}
+			if (e.Invoke || e.Fn == nil && e.SSAFn == nil && e.Callee != nil) && !e.Deferred {
 				// a call of a function value or through an interface: the value must not be nil
 				cal := e.Callee
-				if e.Invoke && len(e.Args) > 0 {
-					cal = e.Args[0]
+				if e.Invoke {
+					cal = nil
+					if len(e.Args) > 0 {
+						cal = stripIface(e.Args[0])
+					}
 				}
 				if cal != nil && (cal.Op == "param" || cal.Op == "load" || cal.Op == "freevar") {
 					ops = append(ops, lgOp{"deref", stripConv(cal), e.Instr, e.NCond})
@@ -358,8 +387,19 @@ func runLateGuard(c *Ctx) {
 						// statement of this function about its operation
 						conds := append([]Cond{}, p.Conds[:op.ncond]...)
 						for _, cd := range p.Conds[op.ncond:] {
-							if cd.Instr != nil && cd.Instr.Parent() == op.instr.Parent() && lgAbout(cd.Instr, op) {
+							if cd.Instr == nil {
+								continue
+							}
+							if cd.Instr.Parent() == op.instr.Parent() && lgAbout(cd.Instr, op) {
 								conds = append(conds, cd)
+								continue
+							}
+							// a test that the function has moved into a NEW helper of its package (not in the baseline the rules
+							// were written against) is still the function's own test, made through the helper
+							if op.instr.Parent() == fn && cd.Instr.Parent() != fn {
+								if hi := c.P.BySSA[cd.Instr.Parent()]; hi != nil && hi.Pkg == fi.Pkg && !c.An.Baseline[hi.Name] && lgCallsDirectly(fn, cd.Instr.Parent()) {
+									conds = append(conds, cd)
+								}
 							}
 						}
 						var all *lgFacts
@@ -367,6 +407,18 @@ func runLateGuard(c *Ctx) {
 							all = lgCollect(conds)
 						}
 						for _, nd := range needs {
+							// definitely undefined: what the path has established before the operation contradicts its need
+							// (a constant index -1, a dereference right after `p == nil`): taking this path panics. Plain view only: with
+							// callees walked through, paths that no input takes survive the pruning; and not for loop variables, whose
+							// values are bounded by induction, not by the conditions of one iteration
+							if vi == 0 && !lgMentionsLoopVar(nd) && before.violatedUnder(nd) && p.End != EndPanic {
+								key := c.ipos(op.instr) + " !" + nd.what
+								if !reported[key] {
+									reported[key] = true
+									msgs = append(msgs, fmt.Sprintf("%s: the operation needs %s, but the path (%s) has established the opposite before it: whenever this path is taken the operation panics", c.ipos(op.instr), nd.what, p.CondString()))
+								}
+								continue
+							}
 							if before.implied(nd) {
 								if vi == 0 {
 									seenBefore[c.ipos(op.instr)+" "+nd.what] = true
@@ -404,7 +456,7 @@ func runLateGuard(c *Ctx) {
 		}
 		if len(msgs) > 0 {
 			sort.Strings(msgs)
-			c.R.Refuted(rule, fi.Name, "order", c.pos(fi), "a guard comes after the operation it guards: "+strings.Join(msgs, "; "))
+			c.R.Refuted(rule, fi.Name, "order", c.pos(fi), "a partial operation is evaluated where it is not (yet) known to be defined: "+strings.Join(msgs, "; "))
 		} else {
 			c.R.Held(rule, fi.Name, "order", c.pos(fi), "every partial operation whose definedness the function itself tests is evaluated after that test")
 		}
@@ -512,4 +564,204 @@ func lgLeaves(v ssa.Value, out map[ssa.Value]bool, depth int) {
 			}
 		}
 	}
+}
+
+// violatedUnder: the facts (the condition of an explicit panic) make the need false - the operation is undefined
+// exactly where the explicit panic fires.
+func (f *lgFacts) violatedUnder(n lgNeed) bool {
+	switch {
+	case n.gt0 != nil: // q > 0 needed; violated when 1 - q > 0
+		return f.impliedGt0(polyConst(1).Add(n.gt0, -1))
+	case n.ne0 != nil: // q != 0 needed; violated when q == 0
+		return f.impliedGt0(n.ne0.Add(polyConst(1), 1)) && f.impliedGt0(polyConst(1).Add(n.ne0, -1))
+	case n.ptr != nil:
+		return f.isnil[stripConv(stripIface(n.ptr)).Key()]
+	}
+	return false
+}
+
+// normalisePanicGuards removes, from a function's path summaries, explicit panics that only spell out a runtime
+// panic: a path that ends in panic(...) right after its last branch condition C (nothing but the construction of the
+// panic value in between), where every path that takes the other side of that branch starts, before any other effect,
+// with a partial operation that is undefined under C - x.M() / *x / x.f / x() after `x == nil`, make([]T, n) after
+// `n < 0`, a[lo:hi] after `lo > hi`, a / b after `b == 0`, m[k] = v after `m == nil`. For such a guard the function
+// panics on exactly the same inputs with and without it, at the same point of its effects; the guard's condition is
+// dropped from the continuing paths as well, so that the rules see the function as it would be without the guard.
+func normalisePanicGuards(fp *FuncPaths) {
+	pure := func(e *Event) bool {
+		switch e.Kind {
+		case "mkclosure":
+			return true
+		case "store":
+			return rootOf(e.Addr) != nil && rootOf(e.Addr).Op == "alloc"
+		case "call":
+			return strings.HasPrefix(e.Name, "builtin.len") || strings.HasPrefix(e.Name, "builtin.cap") || strings.HasPrefix(e.Name, "fmt.Sprint") || strings.HasPrefix(e.Name, "fmt.Errorf") || e.Name == "errors.New"
+		}
+		return false
+	}
+	samePrefix := func(a, b *Path, k int) bool {
+		if len(a.Conds) < k || len(b.Conds) < k {
+			return false
+		}
+		for i := 0; i < k; i++ {
+			if a.Conds[i].Instr != b.Conds[i].Instr || a.Conds[i].Pol != b.Conds[i].Pol || a.Conds[i].T.Key() != b.Conds[i].T.Key() {
+				return false
+			}
+		}
+		return true
+	}
+	for changed := true; changed; {
+		changed = false
+		for pi, P := range fp.Paths {
+			if P.End != EndPanic || len(P.Conds) == 0 {
+				continue
+			}
+			k := len(P.Conds) - 1
+			ck := P.Conds[k]
+			if ck.Instr == nil {
+				continue
+			}
+			okP := true
+			for i := ck.NEv; i < len(P.Events); i++ {
+				if !pure(&P.Events[i]) {
+					okP = false
+				}
+			}
+			if !okP {
+				continue
+			}
+			C := lgCollect([]Cond{ck})
+			var conts []*Path
+			good := true
+			for qi, Q := range fp.Paths {
+				if qi == pi || !samePrefix(P, Q, k) || len(Q.Conds) <= k {
+					continue
+				}
+				qk := Q.Conds[k]
+				if qk.Instr != ck.Instr || qk.T.Key() != ck.T.Key() {
+					continue // a different branch at that depth: not a continuation of this guard
+				}
+				if qk.Pol == ck.Pol {
+					good = false // another path on the panicking side that does not panic here
+					break
+				}
+				// the first thing Q does after the guard: a partial operation undefined under C
+				found := false
+				for _, op := range lgOps(Q) {
+					if op.ncond != k+1 {
+						continue
+					}
+					// nothing but pure steps between the guard and the operation
+					nev := len(Q.Events)
+					switch in := op.instr.(type) {
+					case ssa.Instruction:
+						for ei := range Q.Events {
+							if Q.Events[ei].Instr == in {
+								nev = ei
+							}
+						}
+					}
+					for _, a := range Q.Part {
+						if a.Instr == op.instr {
+							nev = a.NEv
+						}
+					}
+					for _, a := range Q.Acc {
+						if a.Instr == op.instr {
+							nev = a.NEv
+						}
+					}
+					clean := true
+					for ei := qk.NEv; ei < nev && ei < len(Q.Events); ei++ {
+						if !pure(&Q.Events[ei]) {
+							clean = false
+						}
+					}
+					if !clean {
+						continue
+					}
+					for _, nd := range lgNeeds(op.kind, op.t, op.instr) {
+						if C.violatedUnder(nd) {
+							found = true
+						}
+					}
+				}
+				if !found {
+					good = false
+					break
+				}
+				conts = append(conts, Q)
+			}
+			if !good || len(conts) == 0 {
+				continue
+			}
+			// drop P; drop the guard's condition from the continuations
+			for _, Q := range conts {
+				Q.Conds = append(append([]Cond{}, Q.Conds[:k]...), Q.Conds[k+1:]...)
+				for ei := range Q.Events {
+					if Q.Events[ei].NCond > k {
+						Q.Events[ei].NCond--
+					}
+				}
+				for ai := range Q.Acc {
+					if Q.Acc[ai].NCond > k {
+						Q.Acc[ai].NCond--
+					}
+				}
+				for ai := range Q.Part {
+					if Q.Part[ai].NCond > k {
+						Q.Part[ai].NCond--
+					}
+				}
+			}
+			fp.Paths = append(append([]*Path{}, fp.Paths[:pi]...), fp.Paths[pi+1:]...)
+			changed = true
+			break
+		}
+	}
+}
+
+func lgMentionsLoopVar(n lgNeed) bool {
+	isLV := func(t *Term) bool { return t != nil && t.Contains(func(x *Term) bool { return x.Op == "loopvar" }) }
+	for _, p := range []*Poly{n.gt0, n.ne0} {
+		if p == nil {
+			continue
+		}
+		for _, a := range p.Atoms {
+			if isLV(a) {
+				return true
+			}
+		}
+	}
+	return isLV(n.ptr)
+}
+
+// lgCallsDirectly: fn's own body contains a static call of callee (or of the generic function it instantiates).
+func lgCallsDirectly(fn, callee *ssa.Function) bool {
+	same := func(a, b *ssa.Function) bool {
+		if a == nil || b == nil {
+			return false
+		}
+		if a == b {
+			return true
+		}
+		oa, ob := a.Origin(), b.Origin()
+		if oa == nil {
+			oa = a
+		}
+		if ob == nil {
+			ob = b
+		}
+		return oa == ob
+	}
+	for _, b := range fn.Blocks {
+		for _, in := range b.Instrs {
+			if call, ok := in.(ssa.CallInstruction); ok {
+				if same(call.Common().StaticCallee(), callee) {
+					return true
+				}
+			}
+		}
+	}
+	return false
 }
